@@ -486,7 +486,7 @@ def gen_cases(tier, seed):
     codes = [0x00, 0x01, 0x02, 0x03, 0x06, 0x09, 0x51, 0x80, 0xFF] if tier == "quick" else list(range(0, 256, 5))
     err_codes = [0x51, 0x52, 0x53, 0x80, 0x02, 0x00, 0x01] if tier == "quick" else [c for c in range(256) if c != SOFTWARE]
     whens = ["pre", "in", "T-", "T+", "late"]
-    ntx = [(0, 0), (3, 5), (7, 7)] if tier == "quick" else [(0, 0), (1, 0), (0, 1), (3, 5), (7, 7), (4, 2)]
+    ntx = [(0, 0), (3, 5), (7, 7), (1, 0), (0, 1)] if tier == "quick" else [(0, 0), (1, 0), (0, 1), (3, 5), (7, 7), (4, 2), (2, 6), (6, 3)]
     # B. timing of the software RSTACK and of other codes / ERROR
     for (i, j) in ntx:
         for w in whens:
